@@ -3,9 +3,15 @@
 package c02
 
 import (
+	"bytes"
+	"crypto/hmac"
+	"crypto/sha256"
+	"encoding/hex"
+	"fmt"
 	"os"
 	"path/filepath"
 	"testing"
+	"time"
 
 	"replay/gwtest"
 )
@@ -146,5 +152,60 @@ func TestWrongSecretUnsignedTrailerUploadRefused(t *testing.T) {
 	h := g.Get(g.RootC, "/bkt/forged", nil)
 	if r.Status/100 == 2 || h.Status == 200 {
 		t.Fatalf("unsigned-trailer upload signed with a wrong secret answered %d; GET now answers %d (%d bytes)", r.Status, h.Status, len(h.Body))
+	}
+}
+
+// signed aws-chunked encoding of one data chunk and the terminating chunk, chained from the request signature
+func signedChunks(secret, region, seed string, at time.Time, data []byte) []byte {
+	mac := func(k []byte, d string) []byte { h := hmac.New(sha256.New, k); h.Write([]byte(d)); return h.Sum(nil) }
+	key := mac(mac(mac(mac([]byte("AWS4"+secret), at.Format("20060102")), region), "s3"), "aws4_request")
+	scope := at.Format("20060102") + "/" + region + "/s3/aws4_request"
+	empty := sha256.Sum256(nil)
+	prev := seed
+	sign := func(c []byte) string {
+		h := sha256.Sum256(c)
+		sts := "AWS4-HMAC-SHA256-PAYLOAD\n" + at.Format("20060102T150405Z") + "\n" + scope + "\n" + prev + "\n" + hex.EncodeToString(empty[:]) + "\n" + hex.EncodeToString(h[:])
+		prev = hex.EncodeToString(mac(key, sts))
+		return prev
+	}
+	var b bytes.Buffer
+	fmt.Fprintf(&b, "%x;chunk-signature=%s\r\n%s\r\n", len(data), sign(data), data)
+	fmt.Fprintf(&b, "0;chunk-signature=%s\r\n\r\n", sign(nil))
+	return b.Bytes()
+}
+
+// A signed aws-chunked upload (STREAMING-AWS4-HMAC-SHA256-PAYLOAD) proves the secret through its chunk signatures, but
+// these only chain from the VALUE of the request signature: that this value fits the request line and the signed headers
+// is checked when the raw body reports its end. A captured upload replayed onto another key, or with other signed
+// headers, keeps valid chunk signatures; it must still be refused.
+func TestReplayedSignedChunkUploadOntoAnotherKeyRefused(t *testing.T) {
+	g := gwtest.Start(t, gwtest.Options{})
+	g.MustStatus(g.Put(g.RootC, "/bkt", nil, nil), 200, "create bucket")
+	data := []byte("0123456789")
+	var body []byte
+	ok := g.Do(gwtest.Req{Method: "PUT", Target: "/bkt/original", Cred: g.RootC, Payload: "STREAMING-AWS4-HMAC-SHA256-PAYLOAD",
+		Header: map[string]string{"Content-Encoding": "aws-chunked", "X-Amz-Decoded-Content-Length": "10", "X-Amz-Meta-Owner": "alice"},
+		BodyFn: func(seed string, at time.Time) []byte {
+			body = signedChunks(g.RootC.Secret, g.Region, seed, at, data)
+			return body
+		}})
+	if ok.Status != 200 {
+		t.Fatalf("valid signed chunk upload: %s", ok)
+	}
+	// the captured request, sent again to another key and with another value of a signed header
+	hdr := map[string]string{}
+	for k, v := range ok.Sent {
+		hdr[k] = v
+	}
+	hdr["X-Amz-Meta-Owner"] = "mallory"
+	for _, tail := range []int{0, 200000} {
+		delete(hdr, "Content-Length")
+		replay := append(append([]byte{}, body...), bytes.Repeat([]byte{'x'}, tail)...)
+		r := g.Do(gwtest.Req{Method: "PUT", Target: "/bkt/elsewhere", NoAuth: true, Header: hdr, Body: replay})
+		h := g.Get(g.RootC, "/bkt/elsewhere", nil)
+		if r.Status/100 == 2 || h.Status == 200 {
+			t.Fatalf("replayed upload (+%d bytes after the terminating chunk) onto another key with altered signed header answered %d; GET /bkt/elsewhere answers %d (%d bytes, x-amz-meta-owner=%q)",
+				tail, r.Status, h.Status, len(h.Body), h.Header.Get("X-Amz-Meta-Owner"))
+		}
 	}
 }
